@@ -143,6 +143,11 @@ def gen_file(rng):
         for c in rng.sample(cons, rng.randint(1, ncon)):
             k = rng.randint(0, len(cands[c]))
             body.append(",".join([c, bid] + rng.sample(cands[c], k)))
+    if body and rng.random() < 0.4:
+        # the same (ballot, contest) a second time, ranking fewer / other candidates: the later row wins in both readers
+        for _ in range(rng.randint(1, 3)):
+            c, bid = rng.choice(body).split(",")[:2]
+            body.append(",".join([c, bid] + rng.sample(cands[c], rng.randint(0, len(cands[c])))))
     if rng.random() < 0.5:
         rng.shuffle(body)
     return lines + body, cands
